@@ -146,6 +146,20 @@ pub fn run(args: &Args) -> Report {
         let label = format!("writer done, then Multiplexor A dropped at any point | {}", cfg.describe());
         cases.push(Case { try_unbounded: false, max_k: u32::MAX, label, exec: Box::new(move |r| xfer::exec(&cfg, &or, r)) });
     }
+    // penguin's real data path with far more than one frame's worth (512 KiB) ready on the local side at once, read
+    // through a caller-supplied buffer whose size does not divide the frame limit (so that the pieces the bridge
+    // coalesces do not add up to the limit exactly)
+    for (a, b) in [((4u32, 2u32), (4u32, 2u32)), ((1, 1), (2, 1))] {
+        let streams = vec![StreamSpec {
+            tag: 1,
+            opener: 0,
+            opener_plan: EndPlan::Bridged(1_500_000, vec![Op::W(100), Op::W(1_400_000), Op::Shutdown, Op::ReadToEof(4096)]),
+            acceptor_plan: EndPlan::Seq(vec![Op::ReadToEof(65_536), Op::W(2), Op::Shutdown]),
+        }];
+        let cfg = XferCfg { a, b, cap: 0, streams, stream_buffer: 4, one_byte_frames: false, dgram_pingpong: 0, dgram_buffer: 4, drop_mux_when_writers_done: None, extra: xfer::XferExtra::NONE, horizon: 8000 };
+        let label = format!("bridged end with 1.4 MB ready at once, read through a buffer of 12 345 octets | {}", cfg.describe());
+        cases.push(Case { try_unbounded: false, max_k: 1, label, exec: Box::new(move |r| xfer::exec(&cfg, &or, r)) });
+    }
     // the flow-id generator proposes ids that are taken (the id of the live first stream, 0, the id the other side is
     // using): the streams still must not touch each other
     for (rng_a, rng_b) in [(&[5u32, 5, 6][..], &[][..]), (&[5, 0, 5, 7], &[]), (&[5, 6], &[5, 5, 6, 8]), (&[9, 9, 9, 4], &[9, 4, 4, 3])] {
